@@ -248,15 +248,47 @@ theorem pair_proteins {cfg : Cfg Rat} {recs : List (Bytes × Bytes)} {groups : L
       rw [seqOf hmk]; exact hdT
     · exact absurd (by rw [seqOf hks]; exact htT) hnT
 
+/-- generated decoys: such a pair has the same missed-cleavage count (the decoy's class of key-equal
+    forms is the mirror image of the target's class, `reverse` keeps the count, and the merge takes
+    the minimum over the class) -/
+theorem pair_mc {cfg : Cfg Rat} {recs : List (Bytes × Bytes)} {groups : List Group}
+    (hg : groupDigests (fastaDigest cfg.par cfg.tag cfg.gen recs) = some groups) (hgen : cfg.gen = true)
+    {t' d' : Pep Rat}
+    (ht : t' ∈ mergeFuel (buildForms cfg groups).length (buildForms cfg groups))
+    (hd : d' ∈ mergeFuel (buildForms cfg groups).length (buildForms cfg groups))
+    (hk : keyOf d' = mirrorKey (keyOf t')) (htT : t'.sequence ∈ targetSet groups)
+    (hdT : d'.sequence ∉ targetSet groups) : d'.mc = t'.mc := by
+  obtain ⟨⟨st, hst, hkt, hmt⟩, _, _⟩ := mem_mergeFuel _ _ (Nat.le_refl _) t' ht
+  obtain ⟨⟨sd, hsd, hkd, hmd⟩, _, _⟩ := mem_mergeFuel _ _ (Nat.le_refl _) d' hd
+  have hlt := mergeFuel_mc_le _ _ (Nat.le_refl _) t' ht
+  have hld := mergeFuel_mc_le _ _ (Nat.le_refl _) d' hd
+  have seqOf : ∀ {a b : Pep Rat}, keyOf a = keyOf b → a.sequence = b.sequence :=
+    fun h => congrArg (fun k => k.2.1) h
+  apply Nat.le_antisymm
+  · -- the target's minimum is attained by a target form whose mirror image is a source of the decoy
+    rcases gen_forms hg hgen hst with ⟨_, _, hm⟩ | ⟨_, hnT, _⟩
+    · have hmk : keyOf (mirror st) = keyOf d' := by rw [keyOf_mirror, ← hkt, hk]
+      have := hld (mirror st) (hm (by rw [seqOf hmk]; exact hdT)) hmk
+      rw [hmt]; exact this
+    · exact absurd (by rw [← seqOf hkt]; exact htT) hnT
+  · rcases gen_forms hg hgen hsd with ⟨_, hT, _⟩ | ⟨_, _, f, hf, _, rfl⟩
+    · exact absurd (by rw [seqOf hkd]; exact hT) hdT
+    · have hfk : keyOf f = keyOf t' := by
+        apply mirrorKey_inj
+        rw [← keyOf_mirror, ← hkd, hk]
+      have := hlt f hf hfk
+      rw [hmd]; exact this
+
 /-- **C07.decoy_reverses_unique_target** — with generated decoys every decoy entry is the reversal of
     exactly one target entry of the database: that target has the mirrored sequence and modification
-    vector (so reversing the decoy gives it back), the same terminal modifications, mass and proteins,
+    vector (so reversing the decoy gives it back), the same terminal modifications, mass, proteins and
+    missed-cleavage count,
     and it is the only entry with that form. -/
 theorem decoy_reverses_unique_target (cfg : Cfg Rat) (recs : List (Bytes × Bytes)) (db : List (Pep Rat))
     (h : digestRecs cfg recs = some db) (hgen : cfg.gen = true) :
     ∀ d ∈ db, d.decoy = true →
       ∃ t ∈ db, t.decoy = false ∧ keyOf t = keyOf (mirror d) ∧ keyOf d = keyOf (mirror t) ∧
-        (∀ x, x ∈ d.proteins ↔ x ∈ t.proteins) ∧ ∀ t2 ∈ db, keyOf t2 = keyOf t → t2 = t := by
+        (∀ x, x ∈ d.proteins ↔ x ∈ t.proteins) ∧ d.mc = t.mc ∧ ∀ t2 ∈ db, keyOf t2 = keyOf t → t2 = t := by
   obtain ⟨groups, hg, rfl⟩ := digestRecs_some h
   intro d hd hdd
   obtain ⟨d', hd', rfl⟩ := mem_reorder.mp hd
@@ -277,7 +309,7 @@ theorem decoy_reverses_unique_target (cfg : Cfg Rat) (recs : List (Bytes × Byte
     rcases gen_forms hg hgen hf with ⟨_, hT, _⟩ | ⟨hc, _⟩
     · exact hT
     · rw [hfd] at hc; cases hc
-  refine ⟨finishProteins t', mem_reorder.mpr ⟨t', ht', rfl⟩, htd, ?_, ?_, ?_, ?_⟩
+  refine ⟨finishProteins t', mem_reorder.mpr ⟨t', ht', rfl⟩, htd, ?_, ?_, ?_, ?_, ?_⟩
   · show keyOf t' = mirrorKey (keyOf d')
     rw [hkd, mirrorKey_mirrorKey]
   · exact hkd
@@ -285,6 +317,8 @@ theorem decoy_reverses_unique_target (cfg : Cfg Rat) (recs : List (Bytes × Byte
     show x ∈ sortDedup d'.proteins ↔ x ∈ sortDedup t'.proteins
     rw [mem_sortDedup, mem_sortDedup]
     exact pair_proteins hg hgen ht' hd' hkd (by rw [seqOf hkt]; exact hfT) (by rw [seqOf hk0]; exact hnT) x
+  · show d'.mc = t'.mc
+    exact pair_mc hg hgen ht' hd' hkd (by rw [seqOf hkt]; exact hfT) (by rw [seqOf hk0]; exact hnT)
   · intro t2 ht2 hk2
     obtain ⟨t2', ht2', rfl⟩ := mem_reorder.mp ht2
     have hpw := mergeFuel_pairwise _ _ (Nat.le_refl (buildForms cfg groups).length)
@@ -293,12 +327,14 @@ theorem decoy_reverses_unique_target (cfg : Cfg Rat) (recs : List (Bytes × Byte
     · exact absurd hk2 (C06.pairwise_forall_symm (fun _ _ h => fun h' => h h'.symm) hpw t2' ht2' t' ht' heq)
 
 /-- **C07.pairing_complete** — with generated decoys every target entry has its decoy in the database
-    (mirrored sequence and modifications, same termini, mass and proteins, flagged decoy) unless the
+    (mirrored sequence and modifications, same termini, mass, proteins and missed-cleavage count,
+    flagged decoy) unless the
     reversed sequence is itself a target digest sequence (palindromes, length ≤ 3, mirror pairs). -/
 theorem pairing_complete (cfg : Cfg Rat) (recs : List (Bytes × Bytes)) (db : List (Pep Rat))
     (h : digestRecs cfg recs = some db) (hgen : cfg.gen = true) :
     ∀ t ∈ db, t.decoy = false → mirrorList t.sequence ∉ specTargets cfg.par cfg.tag recs →
-      ∃ d ∈ db, d.decoy = true ∧ keyOf d = keyOf (mirror t) ∧ (∀ x, x ∈ d.proteins ↔ x ∈ t.proteins) := by
+      ∃ d ∈ db, d.decoy = true ∧ keyOf d = keyOf (mirror t) ∧ (∀ x, x ∈ d.proteins ↔ x ∈ t.proteins) ∧
+        d.mc = t.mc := by
   obtain ⟨groups, hg, rfl⟩ := digestRecs_some h
   intro t ht htd hnot
   rw [← targetSet_iff hg] at hnot
@@ -325,7 +361,8 @@ theorem pairing_complete (cfg : Cfg Rat) (recs : List (Bytes × Bytes)) (db : Li
   have hkd' : keyOf d' = mirrorKey (keyOf t') := by rw [hkd, keyOf_mirror, hks]
   have hdT : d'.sequence ∉ targetSet groups := by rw [seqOf hkd]; exact hmT
   obtain ⟨_, hddec, _⟩ := mem_mergeFuel _ _ (Nat.le_refl _) d' hd'
-  refine ⟨finishProteins d', mem_reorder.mpr ⟨d', hd', rfl⟩, ?_, hkd', ?_⟩
+  refine ⟨finishProteins d', mem_reorder.mpr ⟨d', hd', rfl⟩, ?_, hkd', ?_,
+    show d'.mc = t'.mc from pair_mc hg hgen ht' hd' hkd' (by rw [← seqOf hks]; exact hsT) hdT⟩
   · show d'.decoy = true
     refine hddec.mpr (fun s2 hs2 hk2 => ?_)
     rcases gen_forms hg hgen hs2 with ⟨_, hT, _⟩ | ⟨hd2, _⟩
@@ -353,6 +390,7 @@ example :
     (digestRecs cfgGen recsGen).map (·.map (·.proteins)) = some
       [[[80, 49], [80, 50]], [[80, 49], [80, 50]], [[80, 49], [80, 50]], [[80, 49], [80, 50]], [[80, 49]],
        [[80, 49]]] ∧
+    (digestRecs cfgGen recsGen).map (·.map (·.mc)) = some [0, 0, 0, 0, 0, 0] ∧
     cfgGen.gen = true ∧
     specTargets cfgGen.par cfgGen.tag recsGen =
       [[65, 71, 83, 77, 75], [65, 71, 83, 71, 75], [65, 75], [65, 71, 83, 77, 75]] := by
